@@ -197,6 +197,46 @@ def rhs_adder(rhs):
     return None
 
 
+def index_sources(facts, fn, rhs, depth=0):
+    """[('adder', qn) | ('remembered', (member, qn)) | ('other', text)] - where the value of an index expression can come from"""
+    e = ir.unwrap_all_casts(rhs)
+    while isinstance(e, dict) and e.get("k") == "Construct" and len(e.get("args", [])) == 1:
+        e = ir.unwrap_all_casts(e["args"][0])
+    if not isinstance(e, dict) or depth > 3:
+        return [("other", show(rhs))]
+    if e.get("k") == "MCall" and (e.get("callee") or {}).get("cls") == BLOCK:
+        return [("adder", callee_qn(e))]
+    if e.get("k") == "Ref" and e.get("d") == "local":
+        defs = []
+        for x in ir.walk(fn["body"]):
+            if x.get("k") == "Decl":
+                defs += [v["init"] for v in x.get("vars", []) if v.get("id") == e.get("id") and v.get("n") == e.get("n") and v.get("init") is not None]
+            elif x.get("k") == "Bin" and x.get("op") == "=" and path(x.get("lhs")) == path(e):
+                defs.append(x.get("rhs"))
+        if not defs:
+            return [("other", show(rhs))]
+        out = []
+        for d in defs:
+            out += index_sources(facts, fn, d, depth + 1)
+        return out
+    p = path(e)
+    if e.get("k") == "Member" and p and len(p) == 2 and p[0] == "this":
+        stores = []
+        for g in facts.functions.values():
+            if g.get("cls") != BLOCK or g.get("body") is None or g.get("ctor") or g["qn"].endswith("::operator=") or g["qn"].endswith("::clear"):
+                continue
+            for x in ir.walk(g["body"]):
+                if x.get("k") == "Bin" and x.get("op") == "=" and path(x.get("lhs")) == p:
+                    stores.append((g, x.get("rhs")))
+        srcs = []
+        for g, r in stores:
+            srcs += index_sources(facts, g, r, depth + 1)
+        ads = set(v for k, v in srcs if k == "adder")
+        if stores and all(k == "adder" for k, v in srcs) and len(ads) == 1:
+            return [("remembered", (p[1], list(ads)[0]))]
+    return [("other", show(rhs))]
+
+
 def check_index_provenance(run, rule):
     facts = run.facts
     adders, getters, tabs = adders_getters(facts)
@@ -218,6 +258,21 @@ def check_index_provenance(run, rule):
             members_seen.add(member)
             key = "%s:%s" % (short(f["qn"]) + "(" + ",".join(short(s).split(" ")[1] if " " in short(s) else short(s) for s in f["sig"][:1]) + ")", member)
             ad = rhs_adder(rhs)
+            remembered = None
+            if ad is None:
+                # through a local with several stores, and through a member that only ever receives insertion results
+                srcs = index_sources(facts, f, rhs)
+                kinds = set(k_ for k_, v_ in srcs)
+                ads = set(v_ for k_, v_ in srcs if k_ == "adder") | set(v_[1] for k_, v_ in srcs if k_ == "remembered")
+                if srcs and "other" not in kinds and len(ads) == 1:
+                    ad = list(ads)[0]
+                    rem = [v_[0] for k_, v_ in srcs if k_ == "remembered"]
+                    remembered = rem[0] if rem else None
+            if remembered is not None and ad in adders:
+                run.ob(rule, key, None, f, node.get("l", 0),
+                       "index member %s may receive %s, an index remembered from an earlier %s(): whether it still addresses its entry depends on "
+                       "what happened to the table since (R01.11 / R12.9 ask that clear() forgets it)" % (member, remembered, short(ad)))
+                continue
             want_getters = mg.get(member, set())
             want_tables = set(getters[g] for g in want_getters if g in getters)
             if ad is None or ad not in adders:
